@@ -265,6 +265,107 @@ fn valid_case(out: &mut Out, rng: &mut Rng, c: &Case, emit_m: bool) {
     }
 }
 
+/// The PUBLIC operation for this response kind, run for real on a scripted connection (`Ldap::simple_bind`,
+/// `search`, `modify`, `add`, `delete`, `modifydn`, `compare`, `extended`): what the caller is handed — after the
+/// per-operation projections (`CompareResult(res)`, `ExopResult(exop, res)`, `SearchResult(entries, res)`,
+/// `simple_bind -> .0`) — carries exactly the fields of the response the server encoded, controls included; a
+/// response whose strings are not UTF-8 (no `String` can hold them) is an error, never a panic (F27).
+fn api_case(out: &mut Out, rng: &mut Rng, c: &Case) {
+    use ldap3::{LdapConnAsync, Mod, Scope};
+    use std::collections::HashSet;
+    let mut r = c.r.clone();
+    r.id = 1; // the first operation of a fresh connection
+    let op = resp_op_rcc(&r, &c.rcc);
+    let msg = envelope_wire(1, op, &c.ctls);
+    let e = if rng.chance(3, 4) { spec_enc(&msg, rng, true) } else { real_encode(&msg) };
+    let reenacted = real_e2e(&e);
+    let app = r.app;
+    crate::out::mark(&format!("results.api app={} {}", app, hex(&e)));
+    let e2 = e.clone();
+    type Got = Result<(LdapResult, Option<Exop>, usize), String>;
+    let run = guarded(move || -> Result<Got, String> {
+        let rt = tokio::runtime::Builder::new_current_thread().enable_time().start_paused(true).build().unwrap();
+        rt.block_on(async move {
+            let (io, net) = crate::simnet::pair();
+            let (conn, mut ldap) = LdapConnAsync::verif_pair(Box::new(io));
+            tokio::spawn(async move {
+                let _ = conn.drive().await;
+            });
+            let local = tokio::task::LocalSet::new();
+            local
+                .run_until(async move {
+                    let h = tokio::task::spawn_local(async move {
+                        let werr = |e: ldap3::LdapError| -> String {
+                            match &e {
+                                ldap3::LdapError::Io { source } if source.kind() == std::io::ErrorKind::InvalidData => String::from("decode"),
+                                other => format!("other:{}", other),
+                            }
+                        };
+                        let got: Got = match app {
+                            1 => ldap.simple_bind("cn=u", "pw").await.map(|r| (r, None, 0)).map_err(werr),
+                            5 => ldap.search("dc=x", Scope::Base, "(a=b)", vec!["a"]).await.map(|SearchResult(es, r)| (r, None, es.len())).map_err(werr),
+                            7 => ldap.modify("cn=x", vec![Mod::Replace("a", HashSet::from(["b"]))]).await.map(|r| (r, None, 0)).map_err(werr),
+                            9 => ldap.add("cn=x", vec![("a", HashSet::from(["b"]))]).await.map(|r| (r, None, 0)).map_err(werr),
+                            11 => ldap.delete("cn=x").await.map(|r| (r, None, 0)).map_err(werr),
+                            13 => ldap.modifydn("cn=x", "cn=y", true, None).await.map(|r| (r, None, 0)).map_err(werr),
+                            15 => ldap.compare("cn=x", "a", "b").await.map(|CompareResult(r)| (r, None, 0)).map_err(werr),
+                            _ => ldap.extended(ldap3::exop::WhoAmI).await.map(|ExopResult(x, r)| (r, Some(x), 0)).map_err(werr),
+                        };
+                        got
+                    });
+                    for _ in 0..20 {
+                        tokio::task::yield_now().await;
+                    }
+                    net.send(&e2);
+                    match tokio::time::timeout(std::time::Duration::from_secs(30), h).await {
+                        Err(_) => Err(String::from("the operation did not return")),
+                        Ok(Err(j)) => Err(format!("task failed: {}", if j.is_panic() { "panic" } else { "cancelled" })),
+                        Ok(Ok(g)) => Ok(g),
+                    }
+                })
+                .await
+        })
+    });
+    let sh = short(&hex(&e));
+    out.case(&format!("api app={} {}", app, hex(&e)), true);
+    out.stat(&format!("api.app{}", app));
+    let got: Got = match run {
+        Err(p) => Err(format!("panic: {}", p)),
+        Ok(Err(w)) => Err(w),
+        Ok(Ok(g)) => g,
+    };
+    match (&reenacted.ext, &got) {
+        (Some((res, exop, _)), Ok((gres, gexop, n_entries))) => {
+            let mut bad = vec![];
+            if gres.rc != r.rc || gres.rc != res.rc { bad.push(format!("rc {} (sent {})", gres.rc, r.rc)); }
+            if gres.matched.as_bytes() != &r.matched[..] { bad.push(format!("matched {}", hex(gres.matched.as_bytes()))); }
+            if gres.text.as_bytes() != &r.text[..] { bad.push(format!("text {}", hex(gres.text.as_bytes()))); }
+            let want_refs: Vec<Vec<u8>> = r.refs.clone().unwrap_or_default();
+            let got_refs: Vec<Vec<u8>> = gres.refs.iter().map(|u| u.as_bytes().to_vec()).collect();
+            if got_refs != want_refs { bad.push(format!("refs {:?} != {:?}", got_refs, want_refs)); }
+            let wantc = wire_ctls_text(&c.ctls);
+            let gotc = ctrls_text_real(&gres.ctrls);
+            if gotc != wantc { bad.push(format!("controls {} != {}", short(&gotc), short(&wantc))); }
+            if let Some(x) = gexop {
+                if x.name.as_ref().map(|s| s.as_bytes().to_vec()) != r.exop_name || x.val != r.exop_val || x.name != exop.name {
+                    bad.push(format!("exop {:?}/{:?} != {:?}/{:?}", x.name, x.val, r.exop_name, r.exop_val));
+                }
+            }
+            if *n_entries != 0 { bad.push(format!("{} entries out of nowhere", n_entries)); }
+            out.stat("api.ok");
+            out.r(&format!("results.api-returns-what-the-server-sent app={} {}", app, sh), bad.is_empty(), &bad.join("; "));
+        }
+        (None, Err(w)) if w == "decode" => {
+            out.stat("api.decode-error");
+            out.r(&format!("results.api-non-result-is-a-decoding-error app={} {}", app, sh), true, "");
+        }
+        (want, got) => {
+            out.r(&format!("results.api-returns-what-the-server-sent app={} {}", app, sh), false,
+                  &format!("conversion says {}; the operation returned {:?}", if want.is_some() { "a result" } else { "not an LDAPResult" }, got.as_ref().map(|g| g.0.rc)));
+        }
+    }
+}
+
 /// a tree that need not be a result: real conversion vs model, `From` panics iff `try_from_tag` is None
 fn tree_case(out: &mut Out, label: &str, t: &StructureTag) {
     let ts = tlv(t);
@@ -466,6 +567,13 @@ pub fn run(thorough: bool, mut rng: Rng, mut out: Out) {
             c.rcc = gen_rc_octets(&mut rng, rc);
             valid_case(&mut out, &mut rng, &c, rc % 4 == 0);
         }
+    }
+    // the public operations themselves, on a scripted connection
+    let napi = if thorough { 8000 } else { 400 };
+    for i in 0..napi {
+        let app = RESULT_APPS[i % RESULT_APPS.len()];
+        let c = gen_case(&mut rng, app);
+        api_case(&mut out, &mut rng, &c);
     }
     let n = if thorough { 400_000 } else { 9000 };
     for i in 0..n {
